@@ -41,7 +41,15 @@ func VerifHarness_C08_PNG_Arbitrary() {
 
 // VerifHarness_C08_PNG_Skeleton: well-formed skeletons (with symbolic fields).
 func VerifHarness_C08_PNG_Skeleton() {
-	in, _ := VerifBuildPNG(verifChoice(2))
+	var in []byte
+	switch verifChoice(3) {
+	case 0:
+		in, _ = VerifBuildPNG(verifChoice(2))
+	case 1: // with an embedded profile (the compressed bytes reach the inflate stub)
+		in, _, _, _ = VerifBuildPNGICC(verifChoice(2), 1, 8)
+	default:
+		in, _, _, _ = VerifBuildPNGICC(0, 2, 40)
+	}
 	verifSegmented(in)
 }
 
